@@ -1197,10 +1197,12 @@ pub fn flip_table_byte(options: &DbOptions, n: u64, offset: usize) -> bool {
         };
         let len = f.len().unwrap_or(0) as usize;
         bytes.resize(len, 0);
-        if f.read_from(&mut bytes, 0).is_err() || offset >= len {
+        if f.read_from(&mut bytes, 0).is_err() || (offset >= len && offset != usize::MAX) {
             return false;
         }
     }
+    // usize::MAX: a byte of the footer
+    let offset = if offset == usize::MAX { bytes.len().saturating_sub(5) } else { offset };
     bytes[offset] ^= 0xff;
     match fs.create_file(&path, false) {
         Ok(mut f) => f.append(&bytes).is_ok(),
